@@ -30,6 +30,9 @@ type c04Case struct {
 	KeptAdd bool   `json:"kept_add"` // kept->kept edges: added (true) or dropped (false)
 	Perm    []int  `json:"perm"`     // order in which the changes are handed to the planner
 	Dialect string `json:"dialect"`
+	// Extra: every table has one more column x, and each kept table that is modified (a foreign key added or
+	// dropped) drops x in the same ModifyTable
+	Extra bool `json:"extra_column,omitempty"`
 }
 
 type sortFK struct {
@@ -60,6 +63,9 @@ func (c *c04Case) build() (changes []schema.Change, abs []sortCh, ok bool) {
 	for i := range tabs {
 		tabs[i] = schema.NewTable(tname(i)).SetSchema(s).AddColumns(schema.NewIntColumn("id", "int"), schema.NewIntColumn("r", "int"))
 		tabs[i].SetPrimaryKey(schema.NewPrimaryKey(tabs[i].Columns[0]))
+		if c.Extra && c.Role[i] != 0 {
+			tabs[i].AddColumns(schema.NewNullIntColumn("x", "int"))
+		}
 	}
 	has := func(i, j int) bool {
 		for _, e := range c.Edges {
@@ -112,6 +118,11 @@ func (c *c04Case) build() (changes []schema.Change, abs []sortCh, ok bool) {
 			perAbs[i] = &sortCh{K: "drop", T: tname(i), FKs: afks}
 		default:
 			if len(subs) > 0 {
+				if c.Extra {
+					x, _ := tabs[i].Column("x")
+					subs = append(subs, &schema.DropColumn{C: x})
+					asubs = append(asubs, sortSub{K: "other", Tag: "*schema.DropColumn"})
+				}
 				perTable[i] = &schema.ModifyTable{T: tabs[i], Changes: subs}
 				perAbs[i] = &sortCh{K: "mod", T: tname(i), Subs: asubs}
 			}
@@ -405,9 +416,12 @@ func runC04(e *Env) error {
 						if n == 4 {
 							perms = perms[:1+r.Intn(2)]
 						}
-						for _, p := range perms {
+						for pi, p := range perms {
 							for _, d := range []string{"mysql", "postgres"} {
 								cases = append(cases, c04Case{N: n, Edges: edges, Role: role, KeptAdd: ka, Perm: p, Dialect: d})
+								if pi == 0 || pi == len(perms)-1 {
+									cases = append(cases, c04Case{N: n, Edges: edges, Role: role, KeptAdd: ka, Perm: p, Dialect: d, Extra: true})
+								}
 							}
 						}
 					}
@@ -445,10 +459,10 @@ func runC04(e *Env) error {
 				perm[i] = i
 			}
 			hx.Shuffle(r, perm)
-			cases = append(cases, c04Case{N: n, Edges: edges, Role: role, KeptAdd: r.Chance(1, 2), Perm: perm, Dialect: hx.Pick(r, []string{"mysql", "postgres"})})
+			cases = append(cases, c04Case{N: n, Edges: edges, Role: role, KeptAdd: r.Chance(1, 2), Perm: perm, Dialect: hx.Pick(r, []string{"mysql", "postgres"}), Extra: r.Chance(1, 3)})
 		}
 		e.Res.Exhaustive = !e.Thorough()
-		e.Res.Rule = fmt.Sprintf("all directed graphs with self loops on 1..%d tables x all 3^n splits created/dropped/kept x kept->kept edges added or dropped x input orders (all permutations for n<=3) x {mysql, postgres} (the 4-table space is sampled 1/8 per seed) + %d random graphs of 5..12 tables; scenarios with an edge between a created and a dropped table are skipped as inconsistent; non-trivial = change set with >= 2 changes and >= 1 foreign key; distinct by the whole case", maxN, nr)
+		e.Res.Rule = fmt.Sprintf("all directed graphs with self loops on 1..%d tables x all 3^n splits created/dropped/kept x kept->kept edges added or dropped x input orders (all permutations for n<=3) x {mysql, postgres} (the 4-table space is sampled 1/8 per seed) + %d random graphs of 5..12 tables; for the first and last input order also with an unrelated column dropped in every ModifyTable; the planned order is replayed on a reference catalogue twice: as Source changes and as the planned statements (parsed CREATE/DROP/ALTER TABLE commands); scenarios with an edge between a created and a dropped table are skipped as inconsistent; non-trivial = change set with >= 2 changes and >= 1 foreign key; distinct by the whole case", maxN, nr)
 	}
 	parallel(e.Workers, len(cases), func(i int) {
 		c := cases[i]
@@ -476,6 +490,12 @@ func runC04(e *Env) error {
 			e.Res.Sample(map[string]any{"case": c, "order": order}, 5)
 		}
 		okI, sig, what := c04Monitor(&c, abs, order, res)
+		if okI && res == "ok" {
+			// the same judgement on the planned COMMANDS
+			if stmts, err := c04Plan(c.Dialect, changes); err == nil {
+				okI, sig, what = c04StmtMonitor(&c, stmts)
+			}
+		}
 		norm := func(xs []sortCh) string {
 			ys := make([]sortCh, len(xs))
 			for i, x := range xs {
